@@ -76,7 +76,8 @@ UserFrame(o) == <<[Frame("value", o) EXCEPT !.ph = "script"]>>
 -----------------------------------------------------------------------------
 (* Monitor *)
 
-\* the process died (child mode): legitimate only as the abort of a clone of a dead handle
+\* the process died (child mode): legitimate only as the abort of a clone of a dead handle;
+\* or the library itself panicked
 NoCrash == "CRASH" \notin ob.flags
 Holds(p) ==
   NoCrash /\
@@ -182,7 +183,9 @@ MonStep ==
                               /\ v2.ret = ln.std.ret /\ v2.dlog = ln.std.dlog )
                         THEN {"C07"} ELSE {}
                  c15 == IF ln.cnt.nvisit > ln.cnt.ntrace * Cardinality(Made(g2)) THEN {"C15"} ELSE {}
-                 x2 == [x1 EXCEPT !.ret = ln.ret, !.flags = @ \cup up \cup c14 \cup sf \cup c15 \cup c16 \cup c09 \cup c07, !.sig = sig2,
+                 \* a panic raised by the library itself (a failed borrow, an assertion): like a crash
+                 lp  == IF ln.ret = "libpanic" THEN {"CRASH"} ELSE {}
+                 x2 == [x1 EXCEPT !.ret = ln.ret, !.flags = @ \cup up \cup c14 \cup sf \cup c15 \cup c16 \cup c09 \cup c07 \cup lp, !.sig = sig2,
                                   !.ntrace = ln.cnt.ntrace, !.npop = ln.cnt.npop,
                                   !.nvisit = ln.cnt.nvisit, !.nmember = ln.cnt.nmember]
              IN /\ heap' = h2
